@@ -6,7 +6,7 @@ The value pipeline (GroupAsMap, AssignmentList, folding) is runtime data
 and is NOT decided.  One clause is an agreement between two literal
 grammars and is decided:
 
-R19.1 spelling agreement for LiteralEval: the extractor hands the raw ES5
+R19.1 spelling agreement, decided by evaluating the extracting token
       lexeme of String / Number nodes to Python's ast.literal_eval.  For
       every JSON string escape the ES5 lexer accepts, the ES5 value
       (7.8.4) must equal the value Python assigns to the same spelling;
@@ -18,6 +18,7 @@ from __future__ import annotations
 import ast
 
 from engine.common import AnalysisError
+from engine.absint import Obj, Raised
 from engine.lexauto import LexAutomata
 from engine.rx import includes
 from engine.srcindex import CallTerm, Unfoldable, need_function
@@ -33,6 +34,170 @@ ES5_ESCAPE = {'"': '"', '\\': '\\', '/': '/', 'b': '\b', 'f': '\f',
 PY_ESCAPE = {'\\': '\\', "'": "'", '"': '"', 'a': '\a', 'b': '\b',
              'f': '\f', 'n': '\n', 'r': '\r', 't': '\t', 'v': '\v'}
 JSON_NUMBER = r'(?:0|[1-9][0-9]*)(?:\.[0-9]+)?(?:[eE][+-]?[0-9]+)?'
+
+
+class ExtractorTokens(object):
+    """the Token classes of unparsers/extractor.py evaluated from their
+    source with stand-ins for walk / dispatcher"""
+
+    RT = 'calmjs.parse.ruletypes'
+
+    def __init__(self, index):
+        self.index = index
+        self.astmodel = None
+        self.ext = index.need(EXT)
+        self.rt = index.need(self.RT)
+        self.own, self.bases, self.home = {}, {}, {}
+        for m in (self.rt, self.ext):
+            for name, node in m.classes.items():
+                self.own[name] = {st.name: st for st in node.body
+                                  if isinstance(st, ast.FunctionDef)}
+                self.bases[name] = [ast.unparse(b).split('.')[-1]
+                                    for b in node.bases]
+                self.home[name] = m
+
+        class AssignmentList(list):
+            pass
+        self.AssignmentList = AssignmentList
+
+    def assignment_list(self, *pairs):
+        return self.AssignmentList(pairs)
+
+    def mro(self, name):
+        out, todo = [], [name]
+        while todo:
+            n = todo.pop(0)
+            if n in out or n not in self.bases:
+                continue
+            out.append(n)
+            todo = self.bases[n] + todo
+        return out
+
+    def methods(self, cls):
+        out = {}
+        for c in reversed(self.mro(cls)):
+            out.update(self.own[c])
+        return out
+
+    def evaluator(self, literal_eval=None):
+        import collections
+        from engine.absint import Evaluator
+
+        def py_getattr(obj, name, *default):
+            if isinstance(obj, Obj):
+                if obj.has(name):
+                    return getattr(obj, name)
+                if default:
+                    return default[0]
+                raise AttributeError(name)
+            return getattr(obj, name, *default)
+
+        def safe_eval(x):
+            try:
+                return ast.literal_eval(x)
+            except Exception as exc:
+                return 'literal_eval raises %s' % type(exc).__name__
+        methods = {c: self.methods(c) for c in self.own}
+        ev = Evaluator(
+            self.ext, functions={
+                'getattr': py_getattr, 'next': next, 'iter': iter,
+                'literal_eval': literal_eval or safe_eval,
+                'defaultdict': lambda f: collections.defaultdict(list),
+                'nodetype': lambda n: n.__dict__['_cls']
+                if isinstance(n, Obj) else type(n).__name__,
+                'AssignmentList': self.AssignmentList,
+                'FoldedFragment': lambda value, folded_type: Obj(
+                    'FoldedFragment', value=value, folded_type=folded_type),
+                'issubclass': self.issubclass, 'float': float,
+                'floor': __import__('math').floor},
+            is_subclass=lambda c, b: b in self.mro(c),
+            class_methods=methods, class_own=self.own,
+            class_bases=self.bases, max_steps=100000)
+        ev.inline_module_functions = True
+        for c, ms in self.own.items():
+            for fd in ms.values():
+                ev.context_of[id(fd)] = (self.home[c], c)
+        return ev
+
+    def run(self, cls, fields, node, items=None, literal_eval=None):
+        """values handed to dispatcher.token by cls(**fields)(walk,
+        dispatcher, node); `items` replaces GroupAs.build_items"""
+        if cls not in self.own:
+            raise AnalysisError('extractor.%s vanished' % cls)
+        ev = self.evaluator(literal_eval)
+        out = []
+
+        def token(tok, nd, value, stack):
+            out.append(value)
+            return iter([Obj('ExtractedFragment', value=value, node=nd)])
+
+        def walk(dispatcher, value, definition=None, token=None):
+            return [Obj('ExtractedFragment', value=value, node=None)]
+        disp = Obj('Dispatcher', token=('pyfunc', token),
+                   deferrable=('pyfunc', lambda r: NotImplemented))
+        tok = Obj(cls, attr=None, value=None, pos=0)
+        for k, v in fields.items():
+            setattr(tok, k, v)
+        if items is not None:
+            wrapped = [Obj('ExtractedFragment', value=i, node=Obj('Node'))
+                       for i in items]
+            tok.build_items = ('pyfunc', lambda w, d, n: iter(wrapped))
+        call = self.methods(cls).get('__call__')
+        if call is None:
+            raise AnalysisError('extractor.%s has no __call__' % cls)
+        try:
+            ev.call(call, [('pyfunc', walk), disp, node], self_obj=tok)
+        except Raised as e:
+            return 'raises %s' % e.text
+        except AnalysisError:
+            raise
+        except Exception as exc:
+            return 'raises %s: %s' % (type(exc).__name__, exc)
+        return out
+
+    def issubclass(self, a, b):
+        from engine.srcindex import Sym
+        if isinstance(a, Sym) and isinstance(b, Sym):
+            if self.astmodel is None:
+                from engine.astmodel import AstModel
+                self.astmodel = AstModel(self.index)
+            return self.astmodel.is_subclass(a.name, b.name)
+        raise AnalysisError('issubclass(%r, %r)' % (a, b))
+
+    def fields_of(self, term):
+        """(class name, constructor fields) of a folded token term; the
+        Token constructor signature (attr, value, pos) is that of
+        ruletypes.Token (checked by the RT rule of C01/C02)"""
+        cls = term.func.name.split('.')[-1]
+        names = ['attr', 'value', 'pos']
+        fields = {}
+        for n, v in zip(names, term.args):
+            fields[n] = self.value_of(v)
+        for k, v in term.kwargs.items():
+            fields[k] = self.value_of(v)
+        return cls, fields
+
+    def value_of(self, v):
+        if isinstance(v, CallTerm):
+            cls = v.func.name.split('.')[-1]
+            if cls not in self.own:
+                raise AnalysisError('extractor token argument %r' % (v,))
+            o = Obj(cls)
+            if v.args:
+                o.attr = self.value_of(v.args[0])
+            return o
+        if isinstance(v, tuple):
+            return tuple(self.value_of(x) for x in v)
+        return v
+
+    def unary_minus(self, v):
+        cls = 'GroupAsUnaryExprMinus'
+        op = self.methods(cls).get('op') if cls in self.own else None
+        if op is None:
+            raise AnalysisError('extractor.%s.op vanished' % cls)
+        ev = self.evaluator()
+        ret, _ = ev.call(op, [v], self_obj=Obj(cls))
+        return ret
 
 
 def run(report, index, tier):
@@ -55,75 +220,62 @@ def run(report, index, tier):
     except Unfoldable as e:
         raise AnalysisError('cannot fold extractor.definitions: %s' % e)
 
-    def shape(name):
+    XS = ExtractorTokens(index)
+
+    def token_of(name):
+        """(class, fields) of the single token that extracts `name`"""
         v = defs.get(name)
         if not isinstance(v, tuple) or len(v) != 1 or not isinstance(
                 v[0], CallTerm):
-            return None
-        return v[0]
-    s = shape('String')
-    uses_eval = s is not None and s.func.name == 'LiteralEval'
-    r.check(uses_eval and repr(s.args[0]) == 'Literal()', 'String uses '
-            'LiteralEval(Literal())', 'extractor definition String',
-            'String is not extracted by literal_eval of the raw lexeme: %r'
-            % (s,), where='unparsers/extractor.py:definitions')
-    n = shape('Number')
-    r.check(n is not None and n.func.name == 'LiteralEval' and
-            n.args == ('value',), 'Number uses LiteralEval',
-            'extractor definition Number', 'Number is %r' % (n,),
-            where='unparsers/extractor.py:definitions')
-    le = None
-    if 'LiteralEval' in ext.classes:
-        le = ext.class_methods('LiteralEval').get('__call__')
-    r.check(le is not None and 'literal_eval(chunk.value)' in
-            ast.unparse(le), 'LiteralEval evaluates the chunk text',
-            'extractor.LiteralEval.__call__',
-            'LiteralEval does not apply ast.literal_eval to the printed '
-            'lexeme', where='unparsers/extractor.py:LiteralEval')
-    b = shape('Boolean')
-    rb = ext.class_methods('RawBoolean').get('__call__') \
-        if 'RawBoolean' in ext.classes else None
-    okb = b is not None and b.func.name == 'RawBoolean' and rb is not None
-    if okb:
-        t = ast.unparse(rb)
-        okb = "value == 'true'" in t and "value == 'false'" in t
-    r.check(okb, 'Boolean mapping', 'extractor definition Boolean',
-            'true/false are not mapped by exact spelling',
-            where='unparsers/extractor.py')
-    nl = shape('Null')
-    r.check(nl is not None and nl.func.name == 'Raw' and
-            nl.kwargs.get('value', 0) is None, 'Null mapping',
-            'extractor definition Null', 'null is %r' % (nl,),
-            where='unparsers/extractor.py')
+            raise AnalysisError('extractor definition %s is not a single '
+                                'token: %r' % (name, v))
+        return XS.fields_of(v[0])
+
+    def extract(name, nodecls, lexeme):
+        cls, fields = token_of(name)
+        got = XS.run(cls, fields, Obj(nodecls, value=lexeme))
+        if isinstance(got, list) and len(got) == 1:
+            return got[0]
+        return got
+
+    def same(a, b):
+        return type(a) == type(b) and a == b
+    import json as _json
     # strings ------------------------------------------------------------
     sdfa = LA.dfa(lm.rule('STRING'))
-    if uses_eval:
-        for e, es5 in sorted(ES5_ESCAPE.items()):
-            lexeme = '"\\%s"' % e
-            accepted = sdfa.accepts_str(lexeme)
-            if not accepted:
-                r.fail('escape \\%s not lexed' % e, 'JSON string %s'
-                       % lexeme, 'the ES5 lexer rejects the JSON escape '
-                       '\\%s' % e, where='lexers/es5.py:t_STRING')
-                continue
-            py = PY_ESCAPE.get(e, '\\' + e)
-            r.check(py == es5, 'escape \\%s' % e, 'JSON/ES5 string %s'
-                    % lexeme,
-                    'ES5 (and JSON) give the value %r but Python\'s '
-                    'literal_eval of the same spelling gives %r' % (
-                        es5, py),
-                    where='unparsers/extractor.py:LiteralEval',
-                    witness='var a = %s' % lexeme)
-        # \uXXXX: same code unit in both; a surrogate pair stays split
-        lexeme = '"\\ud83d\\ude00"'
-        r.check(sdfa.accepts_str('"\\u0041"'), 'unicode escape lexed',
-                '"\\u0041"', 'the lexer rejects \\uXXXX')
-        r.fail('surrogate pair', 'JSON string %s' % lexeme,
-               'JSON parsers combine a \\uD83D\\uDE00 surrogate pair into '
-               'one character (U+1F600); literal_eval of the ES5 lexeme '
-               'yields two separate surrogate code points',
-               where='unparsers/extractor.py:LiteralEval',
-               witness='var a = %s' % lexeme)
+    r.check(same(extract('String', 'String', '"abc"'), 'abc') and
+            same(extract('String', 'String', "'abc'"), 'abc'),
+            'String extracts the text', 'extractor definition String',
+            'the literal "abc" is extracted as %r' % (
+                extract('String', 'String', '"abc"'),),
+            where='unparsers/extractor.py:definitions')
+    for e, es5 in sorted(ES5_ESCAPE.items()):
+        lexeme = '"\\%s"' % e
+        if not sdfa.accepts_str(lexeme):
+            r.fail('escape \\%s not lexed' % e, 'JSON string %s'
+                   % lexeme, 'the ES5 lexer rejects the JSON escape '
+                   '\\%s' % e, where='lexers/es5.py:t_STRING')
+            continue
+        got = extract('String', 'String', lexeme)
+        r.check(same(got, es5) and same(es5, _json.loads(lexeme)),
+                'escape \\%s' % e, 'JSON/ES5 string %s' % lexeme,
+                'ES5 (and JSON) give the value %r but the extractor gives '
+                '%r for the same spelling' % (es5, got),
+                where='unparsers/extractor.py:%s' % token_of('String')[0],
+                witness='var a = %s' % lexeme)
+    r.check(sdfa.accepts_str('"\\u0041"'), 'unicode escape lexed',
+            '"\\u0041"', 'the lexer rejects \\uXXXX')
+    for key, lexeme in (('unicode escape', '"\\u0041\\u00e9"'),
+                        ('surrogate pair', '"\\ud83d\\ude00"')):
+        got = extract('String', 'String', lexeme)
+        want = _json.loads(lexeme)
+        r.check(same(got, want), key, 'JSON string %s' % lexeme,
+                'a JSON parser gives %r (%d code point(s)); the extractor '
+                'gives %r (%s code point(s))' % (
+                    want, len(want), got, len(got) if isinstance(got, str)
+                    else '?'),
+                where='unparsers/extractor.py:%s' % token_of('String')[0],
+                witness='var a = %s' % lexeme)
     # numbers --------------------------------------------------------------
     ndfa = LA.dfa(lm.rule('NUMBER'))
     jdfa = LA.compile(JSON_NUMBER).dfa
@@ -132,15 +284,68 @@ def run(report, index, tier):
             'L(NUMBER)', 'the lexer does not accept the JSON number %r as '
             'one NUMBER token' % (LA.alpha.word(w) if w else ''),
             where='lexers/es5.py:t_NUMBER')
-    for form in ('0', '12', '1.5', '0.25', '1e5', '1E+5', '2.5e-3'):
-        r.check(ndfa.accepts_str(form) and jdfa.accepts_str(form),
-                'number form %s' % form, 'number %s' % form,
-                'number form %s is not accepted' % form)
+    for form in ('0', '7', '12', '100', '1.5', '0.25', '0.0', '1e5', '1E+5',
+                 '2.5e-3', '0e0', '0E5', '0e-3', '10e2', '1.0e1'):
+        got = extract('Number', 'Number', form)
+        want = _json.loads(form)
+        r.check(ndfa.accepts_str(form) and jdfa.accepts_str(form) and
+                same(got, want), 'number form %s' % form,
+                'number %s' % form,
+                'the number %s is extracted as %r, a JSON parser gives %r'
+                % (form, got, want),
+                where='unparsers/extractor.py:%s' % token_of('Number')[0],
+                witness='var a = %s' % form)
+    for text, want in (('true', True), ('false', False)):
+        got = extract('Boolean', 'Boolean', text)
+        r.check(got is want, 'Boolean mapping %s' % text,
+                'extractor definition Boolean on %s' % text,
+                '%s is extracted as %r' % (text, got),
+                where='unparsers/extractor.py:definitions')
+    got = extract('Null', 'Null', 'null')
+    r.check(got is None, 'Null mapping', 'extractor definition Null',
+            'null is extracted as %r' % (got,),
+            where='unparsers/extractor.py:definitions')
     # unary minus is folded separately
     u = defs.get('UnaryExpr')
     r.check(u is not None and 'GroupAsUnaryExprMinus' in repr(u),
             'negative numbers', 'extractor definition UnaryExpr',
             'negative numbers are not folded by GroupAsUnaryExprMinus')
+    # R19.2: the tokens that build the value ------------------------------
+    r2 = report.rule('R19.2', 'extractor tokens yield the JSON value '
+                     '(decision table by abstract evaluation)', floor=8)
+    AL = XS.assignment_list
+    for name, items, want in (
+            ('distinct keys', [AL(('a', 1)), AL(('b', 2))],
+             {'a': 1, 'b': 2}),
+            ('repeated key (last binding wins in JSON and ES5)',
+             [AL(('a', 1)), AL(('b', 2)), AL(('a', 3))], {'a': 3, 'b': 2}),
+            ('repeated key, nested value',
+             [AL(('k', [1])), AL(('k', {'x': None}))], {'k': {'x': None}}),
+            ('empty object', [], {})):
+        got = XS.run('GroupAsMap', {'attr': ()}, Obj('Object'),
+                     items=items)
+        r2.check(got == [want], 'GroupAsMap %s' % name,
+                 'object literal with %s' % name,
+                 'the properties %r are grouped as %r, a JSON parser gives '
+                 '%r' % ([list(i) for i in items], got, want),
+                 where='unparsers/extractor.py:GroupAsMap')
+    for name, items, want in (
+            ('three elements', [1, 'x', None], [1, 'x', None]),
+            ('equal elements', [2, 2, 2], [2, 2, 2]),
+            ('nested', [[1], {'a': 2}], [[1], {'a': 2}]),
+            ('empty', [], [])):
+        got = XS.run('GroupAsList', {'attr': ()}, Obj('Array'),
+                     items=items)
+        r2.check(got == [want], 'GroupAsList %s' % name,
+                 'array literal with %s' % name,
+                 'the elements %r are grouped as %r' % (items, got),
+                 where='unparsers/extractor.py:GroupAsList')
+    for op, v, want in (('-', 5, -5), ('-', 2.5, -2.5), ('-', 0, 0)):
+        got = XS.unary_minus(v)
+        r2.check(got == want and type(got) == type(want),
+                 'GroupAsUnaryExprMinus %r' % v, 'literal -%r' % v,
+                 '-%r is folded to %r' % (v, got),
+                 where='unparsers/extractor.py:GroupAsUnaryExprMinus')
     report.trusted_base += ['ES5 7.8.4 escape table', 'Python string '
                             'escape table', 'JSON number grammar (RFC '
                             '8259)', 'lexer automata']
